@@ -622,6 +622,37 @@ def window_cursor(prog, rep, L):
 
 
 
+
+# ---------------------------------------------------------------------------
+def span_rule(prog, rep):
+    """A position computed as span + 1, where span = strcspn(s, ..) or strlen(s), lies inside the string only if s[span] is
+    not the terminator.  Every use of s[span + 1] / &s[span + 1] must be on the `s[span] != 0` edge (header lines without a
+    colon: the value would start one byte past the line's NUL, in bytes the response parser never terminated)."""
+    u = prog.unit(UNIT)
+    n = 0
+    for f in u.funcs:
+        if f.file != UNIT:
+            continue
+        spans = {}
+        for e in f.all_elems():
+            if e.is_assign and e.op == "=" and e.kid(1) is not None and e.kid(1).strip().cls == "CallExpr" and e.kid(1).strip().callee in ("strcspn", "strlen"):
+                spans[norm(e.kid(0))] = norm(e.kid(1).strip().arg(0))
+        if not spans:
+            continue
+        for e in f.all_elems():
+            if e.cls != "ArraySubscriptExpr":
+                continue
+            base, idx = norm(e.kid(0)), norm(e.kid(1))
+            for v, sarg in spans.items():
+                if base == sarg and idx == ir.B("+", v, ("c", 1)):
+                    n += 1
+                    at = [(op, L, R) for cond, truth in f.edge_conds(e) for op, L, R, _, _ in cond_atoms(cond, truth)]
+                    ok = any(op == "!=" and L == ("[]", sarg, v) and R == ("c", 0) for op, L, R in at)
+                    rep.check(ok, "STRSAFE", "%s[%s + 1] in %s" % (show(sarg), show(v), f.name), e.where,
+                              "%s is the length of the initial span of %s; the position after it is inside the string only when %s[%s] is not the terminator, "
+                              "which no dominating test establishes here" % (show(v), show(sarg), show(sarg), show(v)), function=f.name, construct="span-plus-one")
+    return n
+
 # ---------------------------------------------------------------------------
 def cookie_init(prog, rep, L):
     """W5: the request record is malloc'ed, so every field holds garbage until it is stored.  Must-analysis over the whole
